@@ -131,14 +131,15 @@ Proof. intros T ip k lvl v H. discriminate. Qed.
 
 Lemma ckey_eqb_eq : forall a b, ckey_eqb a b = true -> a = b.
 Proof.
-  intros [[p k] l] [[p' k'] l'] H. simpl in H. apply andb_true_iff in H. destruct H as [H H3].
-  apply andb_true_iff in H. destruct H as [H1 H2]. apply ol_ostr_eqb_eq in H1. apply Nat.eqb_eq in H2, H3. congruence.
+  intros [[p k] l] [[p' k'] l'] H. simpl in H.
+  destruct (Nat.eqb l l') eqn:H3; [|discriminate]. destruct (Nat.eqb k k') eqn:H2; [|discriminate].
+  apply ol_ostr_eqb_eq in H. apply Nat.eqb_eq in H2, H3. congruence.
 Qed.
 
 Lemma cache_ok_add : forall T c ip k lvl, cache_ok T c -> cache_ok T (cache_add (ip, k, lvl) (ks_pure T k lvl ip) c).
 Proof.
   intros T c ip k lvl H ip' k' lvl' v Hf. unfold cache_add in Hf. simpl in Hf.
-  destruct (ostr_eqb ip ip' && Nat.eqb k k' && Nat.eqb lvl lvl') eqn:E.
+  destruct (if Nat.eqb lvl lvl' then if Nat.eqb k k' then ostr_eqb ip ip' else false else false) eqn:E.
   - inversion Hf; subst. assert (E' : ckey_eqb (ip, k, lvl) (ip', k', lvl') = true) by exact E.
     apply ckey_eqb_eq in E'. inversion E'; subst. reflexivity.
   - apply H. exact Hf.
@@ -621,3 +622,13 @@ Example ol_cutoff_example :
   ks_done (calc_keyspace T_r9 18 0 false false []) = [(1, 1%N)] /\
   ks_stopped (calc_keyspace T_r9 18 0 false false []) = true.
 Proof. split; vm_compute; reflexivity. Qed.
+
+Example ol_c18_satisfiable :
+  wf_ttab T_r9 /\ levels_le guesser_max_level T_r9 /\ closedb T_r9 = true /\ reachable T_r9 [] /\
+  keyspace_of (calc_keyspace T_r9 18 10000000000 false false []) 10 = Some 2%N /\
+  ks_done (calc_keyspace T_r9 18 0 false false []) = [(1, 1%N)] /\
+  ks_stopped (calc_keyspace T_r9 18 0 false false []) = true.
+Proof.
+  split; [apply T_r9_wf|]. split; [apply T_r9_wf|]. split; [exact T_r9_closed|]. split; [constructor|].
+  split; [vm_compute; reflexivity|]. exact ol_cutoff_example.
+Qed.
